@@ -665,6 +665,49 @@ func checkGuardedRecursion(c *core.Ctx, r *core.Rule, prog *core.Prog, exempt ma
 				}
 			}
 		}
+		// recursion over the nesting of one JSON text: every function of the cycle takes the *jx.Decoder and the cycle
+		// passes through a callback handed to a Decoder method (Arr / Obj / ObjBytes), so each round consumes an opening
+		// bracket of the input — bounded by the document's own depth, whatever schema pointer rides along
+		if guarded == "" {
+			all, viaCallback := true, false
+			inComp := map[*ssa.Function]bool{}
+			for _, i := range comp {
+				inComp[fns[i]] = true
+			}
+			isDec := func(t types.Type) bool {
+				return strings.HasSuffix(t.String(), "github.com/go-faster/jx.Decoder")
+			}
+			for _, i := range comp {
+				has := false
+				for _, p := range fns[i].Params {
+					if isDec(p.Type()) {
+						has = true
+					}
+				}
+				if !has {
+					all = false
+				}
+				for _, call := range core.Calls(fns[i]) {
+					cal := call.Common().StaticCallee()
+					if cal == nil || cal.Signature.Recv() == nil || !isDec(cal.Signature.Recv().Type()) {
+						continue
+					}
+					for _, a := range call.Common().Args {
+						if mc, ok := a.(*ssa.MakeClosure); ok {
+							if f, ok := mc.Fn.(*ssa.Function); ok && inComp[f] {
+								viaCallback = true
+							}
+						}
+						if f, ok := a.(*ssa.Function); ok && inComp[f] {
+							viaCallback = true
+						}
+					}
+				}
+			}
+			if all && viaCallback {
+				guarded = "JSON text being decoded (every function takes the *jx.Decoder and the cycle passes through a Decoder callback)"
+			}
+		}
 		pos := c.Pos(fns[comp[0]].Pos())
 		switch {
 		case guarded != "":
